@@ -13,7 +13,8 @@ EXPLANATION = (
     "operation is one RMW whose new value is a function of the value it read, so operations are linearizable and "
     "each sequential step preserves granted*cost + balance <= initial + deposits*amount and balance <= max. "
     "Not decided: memory-ordering strength (single-word RMW atomicity does not depend on it)."
-    " (INIT) the initial balance is bounded by the same configured maximum in every constructor; (CEILING-CONFIG) a nested controller receives the budget's own bounds, not defaults; a `store` under a condition on an earlier observation of the same word (check-then-act) is a lost-update site too.")
+    " (INIT) the initial balance is bounded by the same configured maximum in every constructor; (CEILING-CONFIG) a nested controller receives the budget's own bounds, not defaults; a `store` under a condition on an earlier observation of the same word (check-then-act) is a lost-update site too."
+    ' (GUARD, update closures) a withdrawal written as fetch_update answers Some(observed - cost) only under observed >= cost.')
 RULE = "one obligation per atomic write site of each budget word, per try_withdraw return-true site, per deposit write"
 TRUSTED = ["std atomics: fetch_update/compare_exchange are atomic on one word", "rustc MIR construction"]
 ASSUMPTIONS = ["RetryBudget implementors are the public anchor for discovering budget state"]
